@@ -113,6 +113,13 @@ class Report:
     def note(self, text: str) -> None:
         self.notes.append(text)
 
+    def limit(self, text: str) -> None:
+        """Something the analyser could not follow.  Never a verdict: the run ends in exit 2 unless it also has concrete findings."""
+        if not hasattr(self, "limits"):
+            self.limits = []
+        if text not in self.limits:
+            self.limits.append(text)
+
     # -- totals ----------------------------------------------------------------------
     @property
     def obligations(self) -> int:
@@ -230,6 +237,13 @@ def run_property(pid: str, fn, tier: str, seed: int, only_key: tuple | None = No
     floor_error = None
     try:
         fn(rep)
+        lims = getattr(rep, "limits", [])
+        if lims:
+            known_ = load_known_findings()
+            if any(match_known(f, known_) is None for f in rep.findings):
+                rep.note("analysis limits (reported because the run found violations anyway): " + norm_ws("; ".join(lims))[:600])
+            else:
+                raise AnalysisError("; ".join(lims[:3]) + (f" (+{len(lims) - 3} more)" if len(lims) > 3 else ""))
         try:
             rep.enforce_floors()
         except AnalysisError as e:
